@@ -2347,7 +2347,9 @@ apply_window_scale_option (PseudoTcpSocket *self, guint8 scale_factor)
 {
    PseudoTcpSocketPrivate *priv = self->priv;
 
-   priv->swnd_scale = scale_factor;
+   /* RFC 7323, section 2.3: the shift count is at most 14. A larger value
+    * from the peer would make "wnd << swnd_scale" undefined. */
+   priv->swnd_scale = min (scale_factor, 14);
    DEBUG (PSEUDO_TCP_DEBUG_NORMAL, "Setting scale factor to %u", scale_factor);
 }
 
